@@ -63,7 +63,7 @@ Definition rpopulate (a : rstate) (ts : list (trial tdata unit)) (ongoing_nonemp
   match ov with
   | None => (a1, STOPPED, {| tv_space := []; tv_values := ∅; tv_obs := [] |})
   | Some v =>
-      let '(v', k') := ensure_go draw (s_space (a_osp a)) v (a_k a) in
+      let '(v', k') := ensure_go0 draw (s_space (a_osp a)) v (a_k a) in
       (record a1 id v' k', RUNNING, {| tv_space := s_space (a_osp a); tv_values := v'; tv_obs := [] |})
   end.
 
@@ -93,7 +93,7 @@ Definition rstep (c : cfg) (s : @ostate rstate tdata unit) (o : rop) : @ostate r
                       (Update id (fun d => {| tv_space := tv_space d; tv_values := tv_values d; tv_obs := tv_obs d ++ [x] |}))
   | REnd id st sp v =>
       let k := a_k (algo s) in
-      let '(v', k') := ensure_go draw sp (list_to_map v) k in
+      let '(v', k') := ensure_go0 draw sp (list_to_map v) k in
       let f := fun d => {| tv_space := sp; tv_values := v'; tv_obs := tv_obs d |} in
       let '(s1, r) := step vdef rscore rpopulate rhook_end rhook_end (fun a => a) (fun v => v) c s (End id st f) in
       (* account for the unseeded draws of this call *)
